@@ -319,23 +319,47 @@ def no_idle_forward(spec: Spec, vals: dict, obs: dict, info: dict) -> list[str]:
                     break
             if elig:
                 fails.append(f"C08 {tid}: slot {slot} is working, has free time on {members} and lies between its bound {bound} and its end, but was not used")
-        # the task starts as soon as its first slot allows: after the bound and after what was booked before it
+        # the task starts as soon as its first slot allows.  Slots are filled from their beginning in scheduling order (the ledger
+        # records amounts, not positions), so the position of a booking is reconstructed here from the spec and the ledger: every
+        # earlier booking in the slot starts where the previous one ended, not before its own dependency bound if that bound lies in
+        # this slot, and - for a team - not before its partners can start.  (An idle prefix created that way is not handed out to
+        # tasks scheduled later; the claim is relative to this fill-from-the-beginning model, see DESIGN section 12.)
         fs = min(mine)
-        before = 0
-        for m in members:
-            b_m = 0
-            for pos, (_t, s) in enumerate(obs["res"][m]["ledger"].get(fs, [])):
-                if _t == tid:
-                    break
-                b_m = b_m + s
-            if b_m > before:
-                before = b_m
-        exp = fs * g + before
+        exp = fs * g + slot_position(spec, vals, obs, info, fs, tid, members, {})
         if bound > exp:
             exp = bound
         if o["start"] - exp > TOL:
             fails.append(f"C08 {tid}: starts at {o['start']} although its resource is free for it from {exp}")
     return fails
+
+
+def slot_position(spec: Spec, vals: dict, obs: dict, info: dict, slot: int, tid: str, members: list, memo: dict) -> Any:
+    """offset (seconds into the slot) at which task tid's booking in `slot` can begin under the fill-from-the-beginning model"""
+    g = info["g"]
+    if tid in memo:
+        return memo[tid]
+    memo[tid] = 0  # cycle guard
+    pos: Any = 0
+    for m in members:
+        p_m: Any = 0
+        for (u, secs_u) in obs["res"][m]["ledger"].get(slot, []):
+            if u == tid:
+                break
+            ut = spec.task(u)
+            u_members = [_leaf_path(spec, r) for r in (ut.alloc if any(task_entries(obs, _leaf_path(spec, r), u) for r in ut.alloc) else ut.alt)]
+            start_u = slot_position(spec, vals, obs, info, slot, u, u_members, memo)
+            end_u = start_u + secs_u
+            if end_u > p_m:
+                p_m = end_u
+        if p_m > pos:
+            pos = p_m
+    # the task's own dependency bound, if it lies inside this slot
+    if obs["tasks"][tid]["forward"] is not False:
+        b = dep_bound(spec, vals, obs, tid)
+        if b is not None and b > slot * g and b < (slot + 1) * g and b - slot * g > pos:
+            pos = b - slot * g
+    memo[tid] = pos
+    return pos
 
 
 def _anc_limits(spec: Spec, rname: str) -> bool:
